@@ -57,6 +57,11 @@ func fixedCases() []corr.Case {
 			"writeto short 5", "writeto err 3", "writeto over", "writeto err 100000", "len", "writeto all", "writeto all", "writeto over"),
 		mk("fixed-io", "new", "readfrom x9:3000 eof+ 0", "len", "cap", "readfrom x1:600 err+ 7 1 0 512", "len", "readfrom 616263 neg+ 0", "readfrom - over+ 3", "bytes", "cap"),
 		mk("fixed-io", "new", "write 6162", "readfrom x5:700 eof 100 0 0 300 0 300", "bytes", "cap", "off", "writeto short 702", "len"),
+		// stalling readers: k consecutive (0, nil) reads before / between / after data chunks — ReadFrom keeps reading to EOF
+		mk("fixed-empty-reads", "new", "readfrom 616263 eof 0 0*0 1", "readfrom 616263 eof 0 0*1 1 0*2 1", "bytes",
+			"readfrom 616263 eof 1 0*99 1 1", "readfrom 616263 eof 0 0*100 3", "bytes", "readfrom 616263 eof 0 1 0*101 1 0*250 1", "bytes", "len"),
+		mk("fixed-empty-reads", "new", "write 78", "readfrom x3:700 err 5 300 0*100 300 0*99 95", "bytes", "readfrom 6162 eof+ 0 0*250", "readfrom 6162 eof 2 0*1000", "bytes",
+			"readfrom - eof 0 0*101", "readfrom 6162 neg 0 1 0*100", "readfrom 6162 over 0 0*100 1", "bytes"),
 		// outside the contract (tex half only): a reader delivering min(600, len(p)) per call sees the capacity policy
 		mk("fixed-space-dependent-reader", "new", "readfrom x0:2000 eof 0 600 600", "len", "cap"),
 		// allocation rule (T-observable, child process with capped address space)
@@ -64,14 +69,11 @@ func fixedCases() []corr.Case {
 		// ReWrite / NewSizedBuffer
 		mk("fixed-rewrite", "news 16", "cap", "len", "write 0000000068656c6c6f", "rewrite 0 00000005", "bytes", "rewrite 7 ffffffffff", "bytes", "rewrite 9 aa", "rewrite 10 aa", "rewrite -1 aa", "bytes"),
 		mk("fixed-rewrite", "new", "write 0102030405", "read 2", "rewrite 1 aabb", "bytes", "unreadbyte", "bytes", "rewrite 0 -", "rewrite 5 -", "rewrite 6 -"),
-		// NewSizedBuffer size classes (Len()==0, Cap() >= requested; the model gives Cap exactly) and large Grow across 4 MiB
+		// NewSizedBuffer size classes (Len()==0, Cap() >= requested; the model gives Cap exactly); large Grow across 4 MiB: see largeCases
 		mk("fixed-sized", "news 0", "cap", "len", "news 1", "cap", "news 63", "cap", "news 64", "cap", "news 65", "cap", "news 4095", "cap", "news 4096", "cap", "len"),
 		mk("fixed-sized", "news 1048576", "cap", "len", "write 0102", "cap", "news 4194303", "cap", "news 4194304", "cap", "len", "writebyte 01", "cap", "bytes"),
 		mk("fixed-sized", "news 4194305", "cap", "len", "write x0:100", "cap", "readbyte", "unreadbyte", "len"),
 		mk("fixed-sized", "news 16777216", "cap", "len", "writebyte 07", "cap", "news 67108864", "cap", "len", "writerune 8364", "cap", "bytes"),
-		mk("fixed-large-grow", "new", "grow 4194303", "cap", "writebyte 01", "grow 4194304", "cap", "off", "bytes"),
-		mk("fixed-large-grow", "new", "write 6162", "readbyte", "grow 4194305", "cap", "off", "write x1:70", "cap", "bytes"),
-		mk("fixed-large-grow", "news 4194304", "grow 4194304", "cap", "grow 4194305", "cap", "writebyte 01", "grow 16777216", "cap", "bytes"),
 		// malformed
 		mk("fixed-malformed", "new", "write 0", "write zz", "writebyte 0102", "writerune 2147483648", "read -1", "frobnicate", "readfrom 00 maybe 0", "writeto short", "new 1", "rewrite 1", "len 3", "len"),
 	}
@@ -212,6 +214,10 @@ func (g *gen) readfrom() string {
 	tail := g.r.PickInt(0, 0, 1, 7, tex.MinRead)
 	var ks []string
 	for i, n := 0, g.r.Intn(5); i < n; i++ {
+		if g.r.Chance(1, 5) { // a run of empty reads before / between / after the data chunks
+			ks = append(ks, "0*"+strconv.Itoa(g.r.PickInt(0, 1, 2, 99, 100, 101, 250, g.r.Intn(300))))
+			continue
+		}
 		ks = append(ks, strconv.Itoa(g.r.PickInt(0, 1, 2, 100, tex.MinRead-1, tex.MinRead, g.r.Intn(tex.MinRead+1))))
 	}
 	return strings.TrimSpace("readfrom " + g.payload(total) + " " + term + " " + strconv.Itoa(tail) + " " + strings.Join(ks, " "))
@@ -308,10 +314,21 @@ var wRewrite = []weighted{{"rewrite", 30}, {"write", 20}, {"writebyte", 5}, {"re
 
 var malformed = []string{"nop", "write", "write 0", "write 0g", "write AB", "writebyte", "writebyte 0102", "writebyte -", "writerune", "writerune 2147483648",
 	"writerune x", "read", "read -1", "read 1 2", "readbyte 1", "next", "next 1 2", "truncate", "grow", "grow 1 2", "readfrom", "readfrom 00", "readfrom 00 eof",
-	"readfrom 00 nope 0", "readfrom 00 eof x", "readfrom 00 eof 0 -1", "readfrom 00 eof++ 0", "readfrom 00 + 0", "writeto", "writeto short", "writeto all 1", "writeto some 1", "rewrite", "rewrite 1",
+	"readfrom 00 nope 0", "readfrom 00 eof x", "readfrom 00 eof 0 -1", "readfrom 00 eof++ 0", "readfrom 00 eof 0 0*1001", "readfrom 00 eof 0 1*2*3", "readfrom 00 eof 0 *3", "readfrom 00 eof 0 3*", "readfrom 00 + 0", "writeto", "writeto short", "writeto all 1", "writeto some 1", "rewrite", "rewrite 1",
 	"rewrite x 00", "memprobe", "memprobe x", "memprobe 1 2", "len 1", "cap 1", "newb", "newb 00", "news", "news x", "new 1", "write x1", "write x1:2:3", "write x1:2000000"}
 
+// largeCases: Grow across the 4 MiB / 16 MiB boundaries and contents above 4 MiB. The oracle materialises byte lists of that
+// size (seconds, hundreds of MB), so they run as the first cases of the thorough and search tiers only.
+var largeCases = [][]string{
+	{"new", "grow 4194303", "cap", "writebyte 01", "grow 4194304", "cap", "off", "bytes"},
+	{"new", "write 6162", "readbyte", "grow 4194305", "cap", "off", "write x1:70", "cap", "bytes"},
+	{"news 4194304", "grow 4194304", "cap", "grow 4194305", "cap", "writebyte 01", "grow 16777216", "cap", "bytes"},
+}
+
 func genCase(r *rng.R, tier string, i int) corr.Case {
+	if tier != "quick" && i >= 1 && i <= len(largeCases) {
+		return corr.Case{Tag: "large-grow", Lines: largeCases[i-1]}
+	}
 	if tier != "quick" && i == 0 {
 		// contents above 4 MiB, observed through String/Bytes/Read/WriteTo (too slow in the oracle for the quick tier: ~9 s)
 		return corr.Case{Tag: "large-contents", Lines: []string{"new", "write x1:1000000", "write x2:1000000", "write x3:1000000", "write x4:1000000",
